@@ -89,6 +89,10 @@ void fk_send_stats(unsigned long * n, unsigned long * nosig, unsigned long * ign
 
 /* ------------------------------------------------------------------ log */
 static int fk_logged;
+static unsigned long fk_nlogged;
+#ifndef FK_MAXLOG
+#define FK_MAXLOG 200000UL
+#endif
 unsigned long fk_activity;		/* bumped by every wrapper call and by the driver's callbacks */
 
 /* tokens go straight to (unbuffered) stdout so that a crash keeps what was observed so far */
@@ -102,6 +106,10 @@ void fk_log(const char * fmt, ...)
 	tmp[0] = ' ';
 	fputs(fk_logged ? tmp : tmp + 1, stdout);
 	fk_logged = 1;
+	/* a case logs a few hundred observations at most; one that has logged FK_MAXLOG is going round
+	 * in circles (each lap is observed, so the log would grow without bound): stop the case here,
+	 * marked, instead of letting the line grow until the processor-time limit ends it */
+	if (++fk_nlogged == FK_MAXLOG) { fputs(" !RUNAWAY", stdout); fflush(stdout); _exit(0); }
 }
 
 /* bytes -> hex (<= 16 bytes) or #fnv64 */
